@@ -5,8 +5,10 @@
 
 #![allow(dead_code, unused_imports)]
 mod alpha;
+mod astobs;
 mod input;
 mod sat;
+mod types;
 mod uni;
 mod world;
 
@@ -38,6 +40,8 @@ fn main() {
         n_in += 1;
         let evs: Vec<Value> = match cmd {
             "sat" => sat::run_case(&u, &case, &["desc", "plan"]),
+            "ast" => astobs::run_case(&u, &case),
+            "types" => types::run_case(&case),
             _ => {
                 eprintln!("unknown command {}", cmd);
                 std::process::exit(2);
